@@ -9,15 +9,17 @@ from ..interp import Interp, Enum, Sym, Ref, Struct, Unsupported
 PID = "C16"
 LEVEL = "other"
 EXPLANATION = (
-    "The bulk of this property (agreement with a full JSON parse for every text, offsets, whitespace, panic-freedom of the "
-    "string slicing) is value-level and out of reach of static analysis; it is NOT decided. Decided, for every path of "
-    "the decoding functions: R1 every error produced by Params::{parse,one} and ParamsSequence::{next,optional_next,"
-    "next_inner} is built by invalid_params(..), whose code is ErrorCode::InvalidParams (-32602): no other error "
-    "constructor and no unwrap/expect/panic on the decoded input in these functions; R2 (poison-on-error) on the "
-    "parse-failure arm and on the end-of-array arm of next_inner the remaining input is set to the empty string before "
-    "returning, so later reads cannot yield an element from a wrong position; on success the remaining input is the text "
-    "after the consumed value; R3 exhaustion maps to Ok(None) in optional_next and to an error in next (decision table); "
-    "R4 absent params are read as `null` by parse and as the empty sequence by sequence()."
+    'The bulk of this property (agreement with a full JSON parse for every text, offsets, whitespace, panic-freedom '
+    'of the string slicing) is value-level and out of reach of static analysis; it is OWN Params::into_owned is '
+    'field-wise identity (what async handlers get is the text that was received); NEXT ParamsSequence::next::<T> '
+    'reads the element as T through next_inner::<T>. NOT decided. Decided, for every path of the decoding functions: '
+    'R1 every error produced by Params::{parse,one} and ParamsSequence::{next,optional_next,next_inner} is built by '
+    'invalid_params(..), whose code is ErrorCode::InvalidParams (-32602): no other error constructor and no '
+    'unwrap/expect/panic on the decoded input in these functions; R2 (poison-on-error) on the parse-failure arm and '
+    'on the end-of-array arm of next_inner the remaining input is set to the empty string before returning, so later '
+    'reads cannot yield an element from a wrong position; on success the remaining input is the text after the '
+    'consumed value; R3 exhaustion maps to Ok(None) in optional_next and to an error in next (decision table); R4 '
+    'absent params are read as `null` by parse and as the empty sequence by sequence().'
 )
 RULE_TEXT = "instances = error construction sites, poison assignments per failure arm, rows of the exhaustion table, substitution constants"
 TRUSTED = ["rustc MIR", "serde_json StreamDeserializer::byte_offset"]
